@@ -73,7 +73,7 @@ func schedRunOnce(t schedTask, prefix []int) schedExec {
 		x.key, x.desc = "deadlock", "no enabled thread: "+res.DeadInfo
 		x.obs = "deadlock"
 	default:
-		x.obs, x.key, x.desc = judge(res)
+		x.obs, x.key, x.desc = judge(res) // the judge sees res.Faults (tracked-map conflicts)
 	}
 	if cleanup != nil && !res.Deadlock && res.Panic == nil {
 		cleanup()
